@@ -12,7 +12,7 @@ verus! {
 //@include contracts/shared/std_specs.rs
 //@include contracts/V-filter/prelude.rs
 
-// proved in V-filter: C08.filtercomp_is_and_or_not_item_in_that_order
+// proved in V-filter: C08.filtercomp_is_one_of_and_or_not_item
 #[verifier::external_body]
 fn filtercomp<'a>(i: &'a [u8]) -> (r: IResult<&'a [u8], Tag>) ensures denotes(r, i, d_filtercomp(i@)) { unimplemented!() }
 
